@@ -14,8 +14,14 @@ class ScriptExhausted(Exception):
     pass
 
 
+REAL_SLEEP = [0.0]   # seconds really slept per (virtual) sleep: lets wall-clock time pass for code that looks at a clock of its own
+_real_sleep = time.sleep
+
+
 def _sleep(d):
     LOG.append(('sleep', d))
+    if REAL_SLEEP[0]:
+        _real_sleep(REAL_SLEEP[0])
 
 
 def _request(method=None, url=None, **kw):
